@@ -228,6 +228,28 @@ class ArgparseRunner:
                     [x for x, _ in self._root_namespace.get_all_datatypes()],
                     lambda p: str(p.source_file_path.as_posix()),
                 )
+            self._stdout_lister(self._find_lookup_dependencies(), lambda p: str(p.source_file_path.as_posix()))
+
+    def _find_lookup_dependencies(self) -> typing.List[typing.Any]:
+        """
+        The types outside of the root namespace (i.e. found in the lookup directories) that the types of the root
+        namespace depend on, directly or transitively. Their definitions influence the generated code.
+        """
+        root_types = [x for x, _ in self._root_namespace.get_all_datatypes()]
+        visited = {str(x.source_file_path): x for x in root_types}
+        dependencies = []  # type: typing.List[typing.Any]
+        pending = list(root_types)
+        while pending:
+            for attribute in getattr(pending.pop(), "attributes", []):
+                data_type = getattr(attribute, "data_type", None)
+                data_type = getattr(data_type, "element_type", data_type)
+                source_file_path = getattr(data_type, "source_file_path", None)
+                if source_file_path is not None and str(source_file_path) not in visited:
+                    visited[str(source_file_path)] = data_type
+                    dependencies.append(data_type)
+                if hasattr(data_type, "attributes"):
+                    pending.append(data_type)
+        return dependencies
 
     def _list_configuration_only(self) -> None:
         lctx = self._language_context
